@@ -83,6 +83,10 @@ type c03gen struct {
 }
 
 var c03Idents = []string{"A", "b", "Rule1", "x_y", "_u", "Ünï", "日本", "aB9", "Z", "r٣", "whitespace", "EOF", "Expr", "term2"}
+
+// failure labels (%{l}, //{l,m}) are plain identifier names, not Go identifiers of the generated code:
+// words that are reserved for rule names and expression labels are fine here
+var c03FailLabels = append(append([]string{}, c03Idents...), "error", "default", "string", "func", "type", "nil", "range", "len", "map", "true")
 var c03LabelNames = []string{"a", "bb", "lbl", "x1", "v_", "é", "first", "rest"}
 var c03Runes = []rune("abAZ09 _-^]\\\"'`{}[]()/*+?!&#%:;.,\n\t\r\x00\x7fé世😀  ßẞ\u0080\ud7ff\ue000\ufffd\uffff\U0010fffe\U0010ffff")
 
@@ -119,11 +123,11 @@ func (g *c03gen) expr(depth int) *anode {
 	case 10:
 		n := &anode{kind: "Recovery", kids: []*anode{g.expr(depth - 1), g.expr(depth - 1)}}
 		for i := 0; i < 1+r.Intn(3); i++ {
-			n.labels = append(n.labels, c03Idents[r.Intn(len(c03Idents))])
+			n.labels = append(n.labels, c03FailLabels[r.Intn(len(c03FailLabels))])
 		}
 		return n
 	case 11:
-		return &anode{kind: "Throw", name: c03Idents[r.Intn(len(c03Idents))]}
+		return &anode{kind: "Throw", name: c03FailLabels[r.Intn(len(c03FailLabels))]}
 	}
 	return g.primary()
 }
